@@ -958,9 +958,9 @@ class GraphParser:
             right = right.strip('()')  # parentheses don't matter
             m = self.__class__.REC_RHS_NODE.match(right)
             if not m:
-                # Bad nodes should have been detected earlier; fail loudly
-                raise ValueError(  # pragma: no cover
-                    f"Unexpected graph expression: '{right}'"
+                # E.g. an xtrigger or a lone suicide mark on the right.
+                raise GraphParseError(
+                    f"Illegal right-hand node: '{right}'"
                 )
             suicide_char, name, offset, output, opt_char = m.groups()
             suicide = (suicide_char == self.__class__.SUICIDE)
